@@ -35,13 +35,13 @@ pub fn last_bpm_len() -> usize {
 
 /// Stand-in for `BeatLenDuration` whose `map` field iterates in the order
 /// chosen by the harness.
-pub struct BpmSeam {
-    pub map: Vec<(u64, f64)>,
+pub struct BpmSeam<V> {
+    pub map: Vec<(u64, V)>,
 }
 
-impl BpmSeam {
-    pub fn wrap(map: HashMap<u64, f64>) -> Self {
-        let mut entries: Vec<(u64, f64)> = map.into_iter().collect();
+impl<V> BpmSeam<V> {
+    pub fn wrap(map: HashMap<u64, V>) -> Self {
+        let mut entries: Vec<(u64, V)> = map.into_iter().collect();
         BPM_LAST_LEN.with(|c| c.set(entries.len()));
 
         if let Some(mut k) = BPM_ORDER.with(Cell::get) {
